@@ -759,6 +759,13 @@ class introduction(Method):
                 state.replace_id(item.id, new_id)
 
 
+def cites(item, id):
+    """Whether item or a line in its subproof has id among its prevs."""
+    if id in item.prevs:
+        return True
+    return item.subproof is not None and any(cites(sub, id) for sub in item.subproof.items)
+
+
 @register_method('revert_intro')
 class revert_intro(Method):
     """Reverse an introduction."""
@@ -780,8 +787,22 @@ class revert_intro(Method):
 
         pt = state.get_proof_item(prevs[0])
         assert pt.rule == 'assume', "revert_intro: prev is not assume"
+
+        # Only the last assumption introduced for this goal can be reverted,
+        # and only if no other line makes use of it.
+        try:
+            item = state.get_proof_item(id.incr_id(1))
+        except ProofStateException:
+            raise AssertionError("revert_intro: cannot find intros after the goal")
+        assert item.rule == 'intros' and len(item.prevs) >= 2 and \
+            item.prevs[-1] == id and item.prevs[-2] == prevs[0], \
+            "revert_intro: prev is not the last assumption for the goal"
+        prf = state.prf.get_parent_proof(id)
+        for other in prf.items:
+            assert other is item or not cites(other, prevs[0]), \
+                "revert_intro: assumption is used elsewhere"
+
         state.set_line(id, 'sorry', th=Thm.implies_intr(pt.th.prop, cur_item.th))
-        item = state.get_proof_item(id.incr_id(1))
         state.set_line(id.incr_id(1), item.rule, args=item.args,
                        prevs=[p for p in item.prevs if p != prevs[0]], th=item.th)
         state.remove_line(prevs[0])
